@@ -79,6 +79,40 @@ def _flag_cond(val, pol, flag):
 
 
 def _check_flag_table(ctx, model, dm):
+    """the judge is the interpretive rule (pv/depjudge.py); the structural
+    reading below it is kept for its diagnostics, its negative verdicts stand
+    only when the judge agrees"""
+    from .. import depjudge
+    n_judged = 0
+    verdict = {}
+    for hname_, (flag, ncls, has_descend) in FLAG_TABLE.items():
+        mem = model.lookup(dm, hname_)
+        if mem is None or mem.kind != "func" or mem.owner is not dm:
+            continue
+        wit, n_ = depjudge.judge(hname_, mem.node, flag, ncls, dm.node)
+        n_judged += n_
+        verdict[hname_] = not wit
+        ctx.ob(f"T0/DependencyMapper/{hname_}/flag-semantics", not wit, where(mem),
+               f"{hname_} interpreted for every value of {flag}: {{expr}} when "
+               "selected, dependencies of all arguments (and of a computed head) "
+               "under descend_args, the inherited handler with all extras when "
+               "off" if not wit else
+               f"DependencyMapper.{hname_} does not follow the flag table: " +
+               "; ".join(w[:240] for w in wit[:2]), {"cases": n_})
+    ctx.floor("DependencyMapper flag cases interpreted", n_judged, 30)
+    mark = len(ctx.obs)
+    try:
+        _check_flag_table_structural(ctx, model, dm)
+    except AnalysisError:
+        if not all(verdict.values()) or len(verdict) < len(FLAG_TABLE):
+            raise
+    if verdict and all(verdict.values()) and len(verdict) == len(FLAG_TABLE):
+        ctx.withdraw_failures_since(
+            mark, "decided by interpreting the handler for every flag value")
+    _check_flag_misc(ctx, model, dm)
+
+
+def _check_flag_table_structural(ctx, model, dm):
     nt = model.nodes
     n_descend = 0
     for hname_, (flag, ncls, has_descend) in FLAG_TABLE.items():
@@ -171,6 +205,9 @@ def _check_flag_table(ctx, model, dm):
         ctx.ob(f"{tag}/exits", need <= seen, where(mem),
                f"exits {sorted(seen)}" if need <= seen else
                f"DependencyMapper.{hname_} lacks exit(s) {sorted(need - seen)}")
+
+
+def _check_flag_misc(ctx, model, dm):
     # map_variable
     mem = model.lookup(dm, "map_variable")
     ok = False
